@@ -20,6 +20,7 @@ function ft() return boolean is begin return true; end;
 function ff() return boolean is begin return false; end;
 function fn() return boolean is begin return bool(); end;
 function fu() return undefined is begin return null; end;
+vtb = tab(2, 1); ntb = tab(); ntt = tab(1, 1); ntt = null; vtp = tup(1, "a"); ntp = tup();
 function fnn() return boolean is begin return null; end;
 function foff(i) return boolean is begin if i > 0 then return true; end if; end;
 """
@@ -73,6 +74,8 @@ REL = {
     "bytes": (['raw("a")', "vb"], ["raw()", "nb"]),
     "boolean": (["true", "vt"], ["bool()", "vn"]),
     "complex": (["ii", "vc"], ["nc"]),
+    "table": (["tab(2, 1)", "vtb"], ["tab()", "ntb", "ntt"]),
+    "tuple": (['tup(1, "a")', "vtp"], ["tup()", "ntp"]),
 }
 UNIV_NULL = ["null", "vu", "fu()"]
 RELOPS = ["==", "!=", "<", "<=", ">", ">="]
